@@ -244,7 +244,9 @@ func (db *Center) SuffrageProofByBlockHeight(height base.Height) (base.SuffrageP
 			}
 		}
 
-		lastheight = temps[len(temps)-1].Height() - 1
+		if i := temps[len(temps)-1].Height() - 1; i < lastheight {
+			lastheight = i
+		}
 	}
 
 	proof, found, err := db.perm.SuffrageProofByBlockHeight(lastheight)
